@@ -365,6 +365,98 @@ def short_containers(prog, ctx, wrappers):
                        % (show(node)[:40], b, bad[0] if bad else '', bad[0] if bad else ''),
                        witness={'container_length': bad[0]} if bad else None, line=node.get('l'))
     ctx.notes.append('C10.f: %d literal-position reads of parameters depend on conditions other than the length and were not judged' % skipped)
+    # ragged tables: p[r'][c] with c running up to the length of ANOTHER row p[r] needs a test of p[r'] 's own length
+    from ..ir import stmt_children
+    for fn in sorted(set(fns), key=lambda f: (f.file, f.line)):
+        if fn.body is None or fn.is_lambda:
+            continue
+        pn = [p['name'] for p in fn.params if p['ty'].startswith('std::vector<std::vector')]
+        if not pn:
+            continue
+
+        def rec(s_, loops, conds):
+            if s_ is None:
+                return
+            if s_['k'] == 'For' and s_.get('cond') is not None:
+                loops = loops + [s_]
+            if s_['k'] == 'If':
+                for e_ in [s_['cond']]:
+                    visit(e_, loops, conds)
+                rec(s_.get('then'), loops, conds + [show(s_['cond'])])
+                rec(s_.get('else'), loops, conds)
+                return
+            for e_ in stmt_exprs(s_):
+                visit(e_, loops, conds)
+            for c_ in stmt_children(s_):
+                rec(c_, loops, conds)
+
+        found = []
+
+        def visit(e_, loops, conds):
+            for n in walk_expr(e_):
+                if n.get('k') != 'Index':
+                    continue
+                inner = strip(n['base'])
+                if inner.get('k') != 'Index':
+                    continue
+                base = strip(inner['base'])
+                if not (base.get('k') == 'Ref' and base.get('rk') == 'param' and base.get('name') in pn):
+                    continue
+                c_ix = strip_casts(n['idx'])
+                if c_ix.get('k') != 'Ref':
+                    continue
+                # the loop whose counter is the column index, and the row whose length bounds it
+                for lp in loops:
+                    init = lp.get('init')
+                    if not (init and init['k'] == 'Decl' and len(init['decls']) == 1 and init['decls'][0]['id'] == c_ix.get('id')):
+                        continue
+                    bound = [m for m in walk_expr(lp['cond']) if m.get('k') == 'Call' and m.get('kind') == 'method' and (m.get('callee') or {}).get('name') == 'size'
+                             and strip(m['obj']).get('k') == 'Index' and strip(strip(m['obj'])['base']).get('name') == base['name']]
+                    if len(bound) != 1:
+                        continue
+                    r_bound = show(strip_casts(strip(bound[0]['obj'])['idx'])).replace(' ', '')
+                    r_here = show(strip_casts(inner['idx'])).replace(' ', '')
+                    if r_bound == r_here:
+                        continue
+                    own = '%s[%s].size()' % (base['name'], show(strip_casts(inner['idx'])))
+                    ctxt = ' '.join(conds + [show(e_)]).replace(' ', '')
+                    guarded = own.replace(' ', '') in ctxt
+                    if not guarded:
+                        # all rows were compared with one reference row beforehand, and the loops of this read run only while
+                        # that comparison has not failed (a validity flag in their condition)
+                        for flag in uniform_flags(fn, base['name'], n.get('l') or 0):
+                            if any(flag in show(lp2['cond']) for lp2 in loops):
+                                guarded = True
+                    found.append((n, base['name'], r_here, r_bound, guarded))
+        rec(fn.body, [], [])
+        for n, bn, r_here, r_bound, guarded in found:
+            ctx.decide(R, '%s:%s[%s][.]' % (fn.q.replace(L, '') + '/%d' % len(fn.params), bn, r_here), fn, guarded,
+                       'the read of row %s is preceded by a test of that row\'s own length' % r_here,
+                       '%s is read with a column index that runs up to the length of row %s, but nothing compares the length of row %s with it: a ragged table '
+                       '(row %s shorter than row %s) is read out of bounds' % (show(n)[:50], r_bound, r_here, r_here, r_bound),
+                       witness={'reproducer': 'Matrix({{Matrix(2,2)},{Matrix(1,2),Matrix(1,3)}}): block_matrices[0][1] does not exist'}, line=n.get('l'))
+
+
+def uniform_flags(fn, pname, before_line):
+    """Names of boolean locals that are set to false, before `before_line`, under a comparison of the length of a row of
+    `pname` with the length of another row, inside a loop over all rows."""
+    flags = []
+    for lp in walk_stmts(fn.body):
+        if lp['k'] != 'For' or (lp.get('l') or 0) >= before_line:
+            continue
+        for s_ in walk_stmts(lp['body']):
+            if s_['k'] != 'If':
+                continue
+            c = show(s_['cond']).replace(' ', '')
+            import re as _re
+            if not _re.search(_re.escape(pname) + r'\[[^\]]+\]\.size\(\)!=' + _re.escape(pname) + r'\[[^\]]+\]\.size\(\)', c):
+                continue
+            for t_ in walk_stmts(s_['then']):
+                for e_ in stmt_exprs(t_):
+                    e0 = strip(e_)
+                    if e0.get('k') == 'Bin' and e0['op'] == '=' and strip(e0['lhs']).get('k') == 'Ref' and show(strip_casts(e0['rhs'])) == 'false':
+                        flags.append(strip(e0['lhs'])['name'])
+    return flags
 
 
 def order_guard_by_algorithm(prog, ctx, E, ctor, wrappers):
